@@ -156,7 +156,7 @@ var c06Hooked = true
 
 func init() {
 	registerCases[c06Case]("C06", "exploration",
-		"10 pictures (sizes 16x16..100x65 incl. non-multiples of 16, 1-macroblock-wide, >= 4 macroblock rows; noise, gradient, many-colour, few-colour, regions, with alpha) x lossy options with at most 2 (thorough 3) fields away from the defaults (16 fields: Quality, Method, Preset, Segments, Partitions, Pass, filter strength/sharpness/type, SNS, Preprocessing, QMin/QMax, TargetSize, TargetPSNR, sharp YUV, Exact) x worker count {1: serial paths, 3: parallel paths under the deterministic default schedule}; plus every ordered pair of Methods 0..6 on a recycled (pooled) encoder for 3 textured pictures, plus two large pictures (more than 32768 tokens) x Partitions 0..3 x Method {4,0,6} x Quality {75,100}; the encoder's reconstruction planes, captured by an overlay wrapper around (*VP8Encoder).EncodeFrame, must equal the independent decoder's planes before the loop filter, and webp.Decode's planes when the frame's filter level is 0",
+		"10 pictures (sizes 16x16..100x65 incl. non-multiples of 16, 1-macroblock-wide, >= 4 macroblock rows; noise, gradient, many-colour, few-colour, regions, with alpha) x lossy options with at most 2 (thorough 3) fields away from the defaults (16 fields: Quality, Method, Preset, Segments, Partitions, Pass, filter strength/sharpness/type, SNS, Preprocessing, QMin/QMax, TargetSize, TargetPSNR, sharp YUV, Exact) x worker count {1: serial paths, 3: parallel paths under the deterministic default schedule}; plus every ordered pair of Methods 0..6 on a recycled (pooled) encoder for 3 textured pictures, plus two large pictures (more than 32768 tokens) x Partitions 0..3 x Method {4,0,6} x Quality {75,100}, plus two pictures of more than 510 macroblocks of which all but one look alike (skewed segment populations) x 3 Methods x 2 Segments settings; the encoder's reconstruction planes, captured by an overlay wrapper around (*VP8Encoder).EncodeFrame, must equal the independent decoder's planes before the loop filter, and webp.Decode's planes when the frame's filter level is 0",
 		[]string{"reconstruction planes are read from VP8Encoder.yPlane/uPlane/vPlane right after EncodeFrame returns (overlay accessor; skipped and reported if the fields are renamed)", "pools never reuse", "independent decoder: vendored x/image vp8 with the loop filter switched off"},
 		func(e *fw.Env) int {
 			if e.Quick() {
@@ -171,7 +171,21 @@ func init() {
 			}
 			return func(c *choice.Ctx) caseI {
 				cs := &c06Case{Seed: e.Seed, Dev: map[string]int{}, PrevM: -1}
-				part := c.PickFree(3, "part")
+				part := c.PickFree(4, "part")
+				if part == 3 {
+					// more than 510 macroblocks of which all but one look alike: segment populations so
+					// skewed that the coded segment-tree probabilities saturate
+					skew := []c02Img{{368, 368, "oneflat", "opaque"}, {512, 512, "oneflat", "opaque"}}
+					cs.Img = skew[c.PickFree(len(skew), "img")]
+					cs.Workers = []int{1, 3}[c.PickFree(2, "workers")]
+					if v := c.PickFree(3, "Method"); v > 0 {
+						cs.Dev["Method"] = []int{1, 3}[v-1]
+					}
+					if v := c.PickFree(2, "Segments"); v > 0 {
+						cs.Dev["Segments"] = 2 // Segments = 2
+					}
+					return cs
+				}
 				if part == 1 {
 					// recycled-encoder part: method pairs on textured pictures
 					seq := []c02Img{{48, 64, "noise", "opaque"}, {100, 65, "noise", "opaque"}, {64, 80, "regions4", "opaque"}}
